@@ -249,7 +249,7 @@ P["C16"] = dict(
         ("Props.C16.C16_rules_order", "rules listed in constraint-map order, types hidden"),
         ("Props.C16.C16_annotation_binds_last_node", "loader model: an annotation binds to the node created last"),
         ("Props.C16.C16_rule_needs_exactly_one_node", "loader model: rules need exactly one node on the line (803 / 804)")),
-    runs=[{"cmd": ["c16-ast"]}, {"cmd": ["loader-diff"]}],
+    runs=[{"cmd": ["c16-ast"]}, {"cmd": ["c16-model"]}, {"cmd": ["loader-diff"]}],
     partial="type precedence and rule order are theorems on the AST model; text -> node tree (scanner + loader) is a Lean model compared with the real GetAST (loader-diff: kinds in source order, keys, shortcut flags, values, rule names in order, notes); the rule values' AST is translation-validated",
     level_text="Translation validation: the generator's abstract schema determines the expected AST (one node per example value in source order, key/shortcut flag, token kind, value, declared-or-inferred type, rules with names/values/order/source marks, notes); the real GetAST() of the printed text is compared field by field. The type-precedence decision table and the rule order are additionally theorems on a Lean model of astNodeFromNode.",
     level_note="Trusted: the Go generator/printer and its expected-AST function (conventions calibrated on the unchanged tree are listed in its source); Lean kernel for the decision-table theorems.",
@@ -278,7 +278,7 @@ P["C18"] = dict(
         ("Props.C18.C18_enum_values", "the literal events, in order, span exactly the item tokens: Values lists the literals in source order"),
         ("Props.C18.C18_enum_duplicate", "the first item whose (decoded text, kind) repeats an earlier one is rejected with error 810 at its first byte"),
         ("Props.C18.C18_goquote_roundtrip", "Go %q then the library's Unquote gives the pattern back")),
-    runs=[{"cmd": ["c18-named"]}, {"cmd": ["enum-diff"]}, {"cmd": ["unquote-diff"]}],
+    runs=[{"cmd": ["c18-named"]}, {"cmd": ["c18-model"]}, {"cmd": ["enum-diff"]}, {"cmd": ["unquote-diff"]}],
     partial="token extraction and the quoting hand-over are theorems; enum rule vs inline list, regexp engine and example generator are explored / oracles",
     level_text="Proof (partial): the regex-type token extraction and the %q -> Unquote hand-over to the schema loader are theorems (so @T and inline {regex: P} give the same pattern to the same engine). Tie: enum-rule scanner model vs code; unquote model vs code. Search: named enum rules vs inline lists (Check agreement, duplicates, Values order, probe verdicts) and regex types vs inline regex (probe verdicts vs Go regexp, Pattern, Example matches, Len).",
     level_note="Trusted: Lean kernel; Go regexp and reggen are oracles.",
